@@ -253,6 +253,9 @@ func runC09(rng *rand.Rand, scale int, out string, shards int, seed int64, corpu
 		if ref.Err && ref.Cls != 20 {
 			g.HasExpect, g.ExpectCls, g.ExpectPos, g.ExpectChain = true, ref.Cls, ref.Pos, ref.Chain
 		}
+		if !ref.Err {
+			g.ExpectAccept = true // titles, comments, resolvable includes nested at most ten deep
+		}
 		if i%3 == 2 {
 			g = percentNames(rng, g)
 		}
